@@ -32,9 +32,8 @@ spec fn dt_secs(dt: DateTime) -> int {
 }
 
 // C14 representation invariant: the fields are the UTC calendar fields of (unix_time + ut_offset),
-// second 60 standing for second 0 of the next minute (secs() counts it as +60), and the instant is in range
+// second 60 standing for second 0 of the next minute (secs() counts it as +60)
 spec fn dt_inv(dt: DateTime) -> bool {
     &&& dt_fields_wf(dt)
     &&& dt_secs(dt) == dt.unix_time as int + dt.local_time_type.ut_offset as int
-    &&& utc_min() <= dt.unix_time as int <= utc_max()
 }
